@@ -4,7 +4,9 @@
 (* blocks of 1..3 bytes, empty relative slots, and garbage block_offset     *)
 (* values at the misaligned secondary offsets), every truncation point of   *)
 (* every file and every overwrite of every offset with every value from 0   *)
-(* to past the end of the file it points into (and one huge value).         *)
+(* to past the end of the file it points into (and one huge value); region    *)
+(* faults: runs of entries filled with 0 / huge, padding appended, a run of *)
+(* primary offsets duplicated.                                              *)
 EXTENDS ImmutableFiles, TLC
 
 Huge == 1000
@@ -17,5 +19,8 @@ MCPristine == <<
 DoTruncate == \E c \in 1..Len(files), f \in {"primary", "secondary", "chunk"}, k \in 0..13 : Truncate(c, f, k)
 DoCorruptPrimary == \E c \in 1..Len(files), j \in 1..6, v \in (0..8) \cup {Huge} : CorruptPrimary(c, j, v)
 DoCorruptSecondary == \E c \in 1..Len(files), j \in 1..3, v \in (0..7) \cup {Huge} : CorruptSecondary(c, j, v)
-MCFNext == DoTruncate \/ DoCorruptPrimary \/ DoCorruptSecondary \/ ReadBlocks
+DoFillRegion == \E c \in 1..Len(files), f \in {"primary", "secondary"}, j \in 1..6, n \in 1..6, v \in {0, Huge} : FillRegion(c, f, j, n, v)
+DoExtendFile == \E c \in 1..Len(files), f \in {"primary", "secondary"}, n \in 1..4, v \in {0, 1, Huge} : ExtendFile(c, f, n, v)
+DoDupPrimary == \E c \in 1..Len(files), j \in 1..6, n \in 1..6 : DupPrimary(c, j, n)
+MCFNext == DoTruncate \/ DoCorruptPrimary \/ DoCorruptSecondary \/ DoFillRegion \/ DoExtendFile \/ DoDupPrimary \/ ReadBlocks
 =============================================================================
